@@ -594,14 +594,15 @@ PROPS["C20"] = dict(
     time_limit=dict(quick=600, thorough=3600))
 
 # ------------------------------------------------------------------------------------------------ C07 (narrow)
-C07_LABELS = {"seed_recorded", "seeded_before_first_draw", "reseeded_before_first_draw"}
+C07_LABELS = {"seed_recorded", "seeded_before_first_draw", "reseeded_before_first_draw", "seeded_x0_draw_independent_of_prior_rng_state",
+              "rng_used_only_when_x0_missing"}
 PROPS["C07"] = dict(
-    jobs=lambda tier: [J("h_bc:HBC", D=D, pat=_pat(D, x0=x0), spell={}, nonlinear=False, seed="sym") for D in ((1, 2) if tier == "thorough" else (1,)) for x0 in (None, ["s"] * D, ["nan"] * D)] +
-    [J("h_bc:HBC", D=2, pat=_pat(2, x0=None, lb=["-inf", "-inf"], ub=["+inf", "+inf"]), spell={}, nonlinear=False, seed="sym")] +
+    jobs=lambda tier: [J("h_bc:HBC", D=D, pat=_pat(D, x0=x0), spell={}, nonlinear=False, seed="sym", twice=True) for D in ((1, 2) if tier == "thorough" else (1,)) for x0 in (None, ["s"] * D, ["nan"] * D)] +
+    [J("h_bc:HBC", D=2, pat=_pat(2, x0=None, lb=["-inf", "-inf"], ub=["+inf", "+inf"]), spell={}, nonlinear=False, seed="sym", twice=True)] +
     [j for j in im_jobs(tier) if j["params"].get("seed")] + pm_jobs("quick")[:4] + es_jobs("quick", cons=(None,))[:1] +
     [j for j in ps_jobs("quick", levels=(0,), D2=False)][:2],
     labels=C07_LABELS, required=sorted(C07_LABELS),
-    bounds=dict(quick="seeding protocol: constructor with a symbolic seed in [0,2] (x0 given / absent / NaN, D<=2): the seed is installed before the first draw and recorded; _init_optimization_ re-seeds before its first draw; randomness discipline: in every harness the only randomness API available to pybads code is the stubbed global NumPy generator (any other API aborts the path and the check ends inconclusive)",
+    bounds=dict(quick="seeding protocol: constructor with a symbolic seed in [0,2] (x0 given / absent / NaN, D<=2): the seed is installed before the first draw and recorded; 2-safety: the constructor executed twice from two different prior generator states (draws are variables named by (state, index)) yields the same starting point; _init_optimization_ re-seeds before its first draw; randomness discipline: in every harness the only randomness API available to pybads code is the stubbed global NumPy generator (any other API aborts the path and the check ends inconclusive)",
                 thorough="same"),
     outside=["bit-for-bit equality of whole runs", "everything inside gpyreg / SciPy (GP training starts, Sobol sequence)", "thread / BLAS nondeterminism", "the seed arithmetic of init_sobol (string manipulation)",
              "module-level state of options.py (covered by C20's instance-independence obligations)"],
